@@ -121,6 +121,35 @@ Theorem unknown_pins :
 Proof. exact unknown_code_pins_ok. Qed.
 Print Assumptions unknown_pins.
 
+(* NodeMaker.create_from_cap: the node cache is transparent.  For every history of
+   earlier calls (any caps, either context) and whatever the weak dictionary still
+   remembers, the answer is the one an empty cache gives; so a mutable node created
+   in the ordinary context is never handed out in a deep-immutable one. *)
+Theorem node_cache_transparent :
+  forall cache rw ro di, cache_ok cache ->
+  fst (create_from_cap cache rw ro di) = create_fresh rw ro di /\ cache_ok (snd (create_from_cap cache rw ro di)).
+Proof. exact node_cache_transparent_ok. Qed.
+Print Assumptions node_cache_transparent.
+
+Theorem node_cache_may_forget :
+  forall cache cache', cache_ok cache -> incl cache' cache -> cache_ok cache'.
+Proof. exact cache_ok_forget. Qed.
+Print Assumptions node_cache_may_forget.
+
+Theorem created_nodes_respect_context :
+  forall rw ro s c,
+  (create_fresh rw ro true = MNode c -> is_mutable c <> Some true /\ is_readonly c <> Some false)
+  /\ (bigcap rw ro = Some (ro_prefix ++ s) -> forall di, create_fresh rw ro di = MNode c -> is_readonly c <> Some false)
+  /\ (bigcap rw ro = Some (imm_prefix ++ s) -> forall di, create_fresh rw ro di = MNode c -> is_mutable c <> Some true /\ is_readonly c <> Some false).
+Proof. exact create_fresh_respects_context_ok. Qed.
+Print Assumptions created_nodes_respect_context.
+
+Theorem nodemaker_pins :
+  nodemaker_code_pins = expected_nodemaker_code_pins
+  /\ (nodemaker_memokey_immutable, nodemaker_memokey_mutable) = ("I", "M")%string.
+Proof. exact nodemaker_pins_ok. Qed.
+Print Assumptions nodemaker_pins.
+
 (* ---- satisfiable hypotheses, concrete chains (executable SHA-256) ---- *)
 Definition ex_wk : bytes := repeat 1 16.
 Definition ex_fp : bytes := repeat 2 32.
@@ -152,4 +181,12 @@ Example ex_unknown_node_nonvacuous :
      = UOk {| un_error := ENone; un_rw := None; un_ro := Some (bytes_of_string "imm.lafs://future-ro") |}
   /\ unknown_node (Some (bytes_of_string "lafs://future-rw")) None false
      = UOk {| un_error := EMustNotBeUnknownRW; un_rw := None; un_ro := None |}.
+Proof. vm_compute. repeat split. Qed.
+
+Example ex_cache_nonvacuous :
+  let s := to_string (CFile (SSK ex_wk ex_fp)) in
+  let '(m1, cache1) := create_from_cap [] (Some s) None false in
+  let '(m2, cache2) := create_from_cap cache1 (Some s) None true in
+  m1 = MNode (CFile (SSK ex_wk ex_fp)) /\ length cache1 = 1%nat
+  /\ m2 = MUnknown (UOk {| un_error := EMustNotBeUnknownRW; un_rw := None; un_ro := None |}).
 Proof. vm_compute. repeat split. Qed.
